@@ -488,26 +488,29 @@ Section BatchR.
   Definition ref_nd (s : st) : Prop :=
     (forall r, s_ref P s = Some r -> a_nd P r = true) /\ (forall r, s_iref P s = Some r -> a_nd P r = true).
 
+  Lemma chk_array_nd : forall X u, chk_array P X = Ok u -> a_nd P X = true.
+  Proof. intros X u H. unfold chk_array in H. destruct (a_nd P X); [auto|discriminate]. Qed.
+
   Lemma ref_nd_step : forall c s o, ref_nd s -> ref_nd (fst (step c s o)).
   Proof.
     intros c s o [H1 H2]. destruct o as [X|X|v|]; [|rewrite compare_pure; split; auto| |].
     - unfold ref_nd, Batch.step.
-      destruct (c_cls Prm c) eqn:Ecl; simpl; unfold Batch.batch_fit, chk_array; simpl;
-        split; intros r0 Hr0; brk_all; auto.
+      destruct (c_cls Prm c) eqn:Ecl; simpl; unfold Batch.batch_fit; simpl;
+        split; intros r0 Hr0; brk_all; eauto using chk_array_nd.
     - unfold ref_nd, Batch.step. destruct (c_cls Prm c) eqn:Ecl; simpl; split; intros r0 Hr0; brk_all; auto.
     - unfold ref_nd, Batch.step. destruct (c_cls Prm c) eqn:Ecl; simpl; split; intros r0 Hr0; simpl in *;
         try discriminate; auto.
   Qed.
+
+  Lemma ref_nd_exec : forall c ops s, ref_nd s -> ref_nd (exec c s ops).
+  Proof. induction ops; simpl; intros; auto. apply IHops. apply ref_nd_step; auto. Qed.
 
   Lemma stored_reference_is_ndarray : forall c ops r,
     (s_ref P (exec c init ops) = Some r \/ s_iref P (exec c init ops) = Some r) -> a_nd P r = true.
   Proof.
     intros c ops.
     assert (H : ref_nd (exec c init ops)).
-    { generalize (@init P). intros s0.
-      assert (G : forall ops s, ref_nd s -> ref_nd (exec c s ops)).
-      { induction ops0; simpl; intros; auto. apply IHops0. apply ref_nd_step; auto. }
-      revert s0. intros _. apply G. split; intros r0 Hr0; discriminate. }
+    { apply ref_nd_exec. split; intros r0 Hr0; discriminate. }
     intros r [Hr|Hr]; [apply (proj1 H)|apply (proj2 H)]; auto.
   Qed.
 
